@@ -2029,6 +2029,8 @@ class Evaluator:
         return NotImplemented
 
     def getattr_value(self, base, attr):
+        if isinstance(base, T) and base.op == "ite" and getattr(self, "_cur", None) is not None:
+            base = self.under_facts(base, self._cur)  # (a branch the path has already excluded -- `if x is None: raise` -- is gone)
         if isinstance(base, T) and base.op == "ite" and all(isinstance(a_, (_EnumInt, _EnumStr, _Obj)) or (isinstance(a_, T) and a_.op == "ite") for a_ in base.args[1:]):
             # a member / an object chosen by a condition: the attribute of whichever was chosen
             x_, y_ = self.getattr_value(base.args[1], attr), self.getattr_value(base.args[2], attr)
@@ -2869,6 +2871,8 @@ class Evaluator:
                     continue
                 vals_.append((v_, mv))
             if mems and simple and vals_ and len(vals_) <= 16:
+                if e is not None:
+                    self.__dict__.setdefault("_inert_calls", set()).add(id(e))  # fully modelled: its one way to fail is the exit below
                 eqs = [tm.cmp("eq", pos[0], int(v_) if isinstance(v_, _EnumInt) else (str(v_) if isinstance(v_, _EnumStr) else v_)) for v_, _m in vals_]
                 anyc = self.decide_in(tm.lor(eqs), fr) if hasattr(self, "decide_in") else tm.lor(eqs)
                 if anyc is not True:
